@@ -9,12 +9,19 @@ position keeps every reference to it (callers, element segments, exports, start)
 namespace Walrus.Sem
 
 /-- `replace_imported_func k body`: the function named by index `k` keeps its identifier (uid), its
-    signature and its parameters and becomes a local function with the given body; nothing else
-    changes.  `none` when `k` is not an imported function (the edit returns an error). -/
-def Env.replaceImported (E : Env) (k : Nat) (body : SL) : Option Env :=
+    signature and its parameters and becomes a local function with the given body (and the scratch
+    locals `extra` the body declares); nothing else changes.  `none` when `k` is not an imported function (the edit returns an error). -/
+def scratchLt (extra : List String) : List (Nat × String) := extra.zipIdx.map fun p => (1000000 + p.2, p.1)
+
+/-- the local table of a replacement function: the parameters of the replaced function, then the
+    scratch locals its body declares (fresh uids) -/
+def replLt (fi : FuncInfo) (extra : List String) : List (Nat × String) :=
+  fi.lt.take fi.sig.1.length ++ scratchLt extra
+
+def Env.replaceImported (E : Env) (k : Nat) (body : SL) (extra : List String := []) : Option Env :=
   match (E.ftab[k]?).bind fun u => (E.ufuncs[u]?).map fun fi => (u, fi) with
   | some (u, fi) =>
-    if fi.imp.isSome then some { E with ufuncs := E.ufuncs.set u ⟨fi.sig, none, fi.lt.take fi.sig.1.length, body⟩ } else none
+    if fi.imp.isSome then some { E with ufuncs := E.ufuncs.set u ⟨fi.sig, none, replLt fi extra, body⟩ } else none
   | none => none
 
 /-- the import entries with the `j`-th *function* import removed -/
@@ -35,13 +42,13 @@ def firstExportOf (m : ModuleM) (f : Nat) : Option Nat :=
 /-- `replace_exported_func f body`: a new function with `f`'s signature is added at a fresh
     identifier and the first export of `f` is retargeted to it; `f` itself and every other
     reference to it are untouched.  `none` when `f` is not exported or not a local function. -/
-def replaceExported (m : ModuleM) (E : Env) (f : Nat) (body : SL) : Option (ModuleM × Env) :=
+def replaceExported (m : ModuleM) (E : Env) (f : Nat) (body : SL) (extra : List String := []) : Option (ModuleM × Env) :=
   match (E.ftab[f]?).bind fun u => E.ufuncs[u]?, firstExportOf m f with
   | some fi, some ex =>
     if fi.imp.isSome then none else
     some ({ m with exports := m.exports.set ex ((m.exports[ex]?.map (·.1)).getD "", "f", E.ftab.length) },
           { E with ftab := E.ftab ++ [E.ufuncs.length],
-                   ufuncs := E.ufuncs ++ [⟨fi.sig, none, fi.lt.take fi.sig.1.length, body⟩] })
+                   ufuncs := E.ufuncs ++ [⟨fi.sig, none, replLt fi extra, body⟩] })
   | _, _ => none
 
 end Walrus.Sem
